@@ -30,6 +30,10 @@ def main():
     tier = sys.argv[2]
     if tier not in ("quick", "thorough"):
         tier = os.environ.get("VERIF_TIER", "quick")
+    if os.path.isdir(C.REPLAYS):
+        for f in os.listdir(C.REPLAYS):
+            if f.startswith(pid + "-"):
+                os.unlink(os.path.join(C.REPLAYS, f))
     ob = C.lean_obligations(pid, tier)
     try:
         if not ob["build_ok"]:
